@@ -129,6 +129,9 @@ impl ISocket for ReqSocket {
       }
     }
 
+    #[cfg(rzmq_verif)]
+    crate::verif::apoint("req.send.after_check").await;
+
     let timeout_opt: Option<Duration> = { self.core.core_state.read().options.sndtimeo };
 
     // === ASYNC OPERATION: Find a Peer (No Lock Held) ===
